@@ -40,6 +40,19 @@ ProfArithTable == [ProfArith EXCEPT !.unops = {}, !.not = FALSE, !.aggs = {"Coun
 ProfShadow == [Base EXCEPT !.classes = {"A", "T"}, !.methods = {"pt", "trks"}, !.aggs = {"Count"},
                  !.rows = {"seq"}, !.mindone = 14]
 
+\* C12: every documented math function (README.md, "Math" section; nan and remquo take a string /
+\* a pointer and cannot be called from a query: MAY), standalone, inside arithmetic and in a comparison
+MathFns1 == {"sin", "cos", "tan", "acos", "asin", "atan", "sinh", "cosh", "tanh", "asinh", "acosh", "atanh",
+             "exp", "log", "ln", "log10", "exp2", "expm1", "ilogb", "log1p", "log2", "sqrt", "cbrt", "erf", "erfc",
+             "tgamma", "lgamma", "ceil", "floor", "trunc", "round", "rint", "nearbyint", "fabs", "abs"}
+MathFns2 == {"atan2", "ldexp", "scalbn", "scalbln", "pow", "hypot", "fmod", "remainder", "copysign", "nextafter",
+             "nexttoward", "fdim", "fmax", "fmin"}
+MathFns3 == {"fma"}
+DocumentedMath == {<<f, 1>> : f \in MathFns1} \cup {<<f, 2>> : f \in MathFns2} \cup {<<f, 3>> : f \in MathFns3}
+ProfMath == [Base EXCEPT !.methods = {"pt"}, !.consts = {<<"int", 2, 1>>, <<"double", 1, 2>>},
+               !.binops = {"+"}, !.cmpops = {">"}, !.math = DocumentedMath, !.select = FALSE, !.where = FALSE,
+               !.rows = {"bool"}, !.colls = {}, !.start = "perobj"]
+
 \* C04: partial operations (First, index, link dereference) under guards
 ProfFault == [Base EXCEPT !.methods = {"pt", "vals", "link"}, !.consts = {<<"int", 0, 1>>},
                 !.iconsts = {0, 1, 2}, !.cmpops = {">"}, !.boolops = {"And", "Or"}, !.ifexp = TRUE,
